@@ -13,8 +13,8 @@ import (
 
 // ---- C07: CSS lexer, IsIdent, IsURLUnquoted ---------------------------------------------------
 
-// cssLexImpl runs the real lexer; the encoding mirrors Css/Harness.v lex_enc.
-func cssLexImpl(c Case) []int64 {
+// c07CssLexImpl runs the real lexer; the encoding mirrors Css/Harness.v lex_enc.
+func c07CssLexImpl(c Case) []int64 {
 	dv, _ := takeList(c.Args)
 	d := toBytes(dv)
 	var out []int64
@@ -50,33 +50,33 @@ func cssLexImpl(c Case) []int64 {
 	return out
 }
 
-func b2i(b bool) int64 {
+func c07B2i(b bool) int64 {
 	if b {
 		return 1
 	}
 	return 0
 }
 
-func cssUtilImpl(c Case) []int64 {
+func c07CssUtilImpl(c Case) []int64 {
 	dv, _ := takeList(c.Args)
 	d := toBytes(dv)
 	out := []int64{-1, -1}
-	if p := catch(func() { out[0] = b2i(css.IsIdent(append([]byte{}, d...))) }); p != nil {
+	if p := catch(func() { out[0] = c07B2i(css.IsIdent(append([]byte{}, d...))) }); p != nil {
 		out[0] = -1
 	}
-	if p := catch(func() { out[1] = b2i(css.IsURLUnquoted(append([]byte{}, d...))) }); p != nil {
+	if p := catch(func() { out[1] = c07B2i(css.IsURLUnquoted(append([]byte{}, d...))) }); p != nil {
 		out[1] = -1
 	}
 	return out
 }
 
 // byte classes of the lexer: one representative per class that any consume* function distinguishes
-var cssAlphaFull = []byte{'a', 'u', 'e', 'F', '-', '+', '.', '1', '\\', '(', ')', '"', '\'', ' ', '\n', '\r',
+var c07CssAlphaFull = []byte{'a', 'u', 'e', 'F', '-', '+', '.', '1', '\\', '(', ')', '"', '\'', ' ', '\n', '\r',
 	'/', '*', '#', '@', '|', '=', '<', '!', '>', '?', '%', 0, 0xE2, ':', '~', '_', '\f', '\t'}
-var cssAlphaCore = []byte{'a', 'u', 'e', '-', '+', '.', '1', '\\', '(', ')', '"', ' ', '\n', '/', '*', 0, 0xE2, '?'}
-var cssAlphaIdent = []byte{'a', '-', '\\', '1', 'f', ' ', '\n', 0, 0xC3, 0xE2, 0xF0, 0x80, '(', ')', '"', '_', 0x7F, '\t', '\r'}
+var c07CssAlphaCore = []byte{'a', 'u', 'e', '-', '+', '.', '1', '\\', '(', ')', '"', ' ', '\n', '/', '*', 0, 0xE2, '?'}
+var c07CssAlphaIdent = []byte{'a', '-', '\\', '1', 'f', ' ', '\n', 0, 0xC3, 0xE2, 0xF0, 0x80, '(', ')', '"', '_', 0x7F, '\t', '\r'}
 
-var cssBoundary = []string{
+var c07CssBoundary = []string{
 	"u+123456", "u+1234567", "u+12345?", "u+123456?", "u+??????", "u+???????", "U+123456-123456", "U+123456-1234567",
 	"U+1234567-1", "u+-1", "u+1-", "u+1-g", "u+?-1", "u+1?-2", "u+g",
 	"\\12345", "\\123456", "\\1234567", "a\\12345 6", "a\\123456 7", "a\\1234567 8", "\\12345\n6", "\\1\r\n2", "\\\xe2\x82\xac", "\\\xe2\x82", "\\\xf0\x90\x8d", "\\\xc3",
@@ -87,7 +87,7 @@ var cssBoundary = []string{
 	"#a", "#", "#-", "#1", "#\\a", "#\\\n", "@a", "@", "@-a", "@--a", "@-", "@1", "@\\a",
 }
 
-func cssCase(fn string, b []byte, note string) Case {
+func c07CssCase(fn string, b []byte, note string) Case {
 	if note == "" {
 		note = fmt.Sprintf("%s %q", fn, b)
 	}
@@ -96,14 +96,14 @@ func cssCase(fn string, b []byte, note string) Case {
 
 // ---- token grammar generator (CSS Syntax railroad diagrams; shared by correspondence and oracle) ----
 
-type cssTok struct {
+type c07CssTok struct {
 	tt   css.TokenType
 	text []byte
 }
 
-var cssRunes = []rune{0xE9, 0x20AC, 0x10348, 0x80, 0x7FF, 0xFFFD, 0x554A}
+var c07CssRunes = []rune{0xE9, 0x20AC, 0x10348, 0x80, 0x7FF, 0xFFFD, 0x554A}
 
-func genEscape(r *Rng, atEnd bool) []byte {
+func c07GenEscape(r *Rng, atEnd bool) []byte {
 	var b []byte
 	b = append(b, '\\')
 	switch r.Intn(4) {
@@ -121,12 +121,12 @@ func genEscape(r *Rng, atEnd bool) []byte {
 		esc := "!#$%&()*+,./:;<=>?@[]^`{|}~ghzGZ_-\" '"
 		b = append(b, esc[r.Intn(len(esc))])
 	default:
-		b = utf8.AppendRune(b, cssRunes[r.Intn(len(cssRunes))])
+		b = utf8.AppendRune(b, c07CssRunes[r.Intn(len(c07CssRunes))])
 	}
 	return b
 }
 
-func genIdentChars(r *Rng, b []byte, n int) []byte {
+func c07GenIdentChars(r *Rng, b []byte, n int) []byte {
 	for i := 0; i < n; i++ {
 		switch r.Intn(12) {
 		case 0:
@@ -136,9 +136,9 @@ func genIdentChars(r *Rng, b []byte, n int) []byte {
 		case 2:
 			b = append(b, byte('0'+r.Intn(10)))
 		case 3:
-			b = utf8.AppendRune(b, cssRunes[r.Intn(len(cssRunes))])
+			b = utf8.AppendRune(b, c07CssRunes[r.Intn(len(c07CssRunes))])
 		case 4:
-			b = append(b, genEscape(r, i == n-1)...)
+			b = append(b, c07GenEscape(r, i == n-1)...)
 		default:
 			b = append(b, "abcdefuUrlLxyzEXe"[r.Intn(17)])
 		}
@@ -146,7 +146,7 @@ func genIdentChars(r *Rng, b []byte, n int) []byte {
 	return b
 }
 
-func genIdent(r *Rng) []byte {
+func c07GenIdent(r *Rng) []byte {
 	var b []byte
 	if r.Chance(1, 5) {
 		b = append(b, '-')
@@ -156,20 +156,20 @@ func genIdent(r *Rng) []byte {
 	case 0:
 		b = append(b, '_')
 	case 1:
-		b = utf8.AppendRune(b, cssRunes[r.Intn(len(cssRunes))])
+		b = utf8.AppendRune(b, c07CssRunes[r.Intn(len(c07CssRunes))])
 	case 2:
-		b = append(b, genEscape(r, n == 0)...)
+		b = append(b, c07GenEscape(r, n == 0)...)
 	default:
 		b = append(b, "abcdefuUrlLxyzXg"[r.Intn(16)])
 	}
-	return genIdentChars(r, b, n)
+	return c07GenIdentChars(r, b, n)
 }
 
-func genCustomProp(r *Rng) []byte {
-	return genIdentChars(r, []byte("--"), r.Intn(5))
+func c07GenCustomProp(r *Rng) []byte {
+	return c07GenIdentChars(r, []byte("--"), r.Intn(5))
 }
 
-func genDigits(r *Rng, b []byte) []byte {
+func c07GenDigits(r *Rng, b []byte) []byte {
 	n := 1 + r.Intn(3)
 	for i := 0; i < n; i++ {
 		b = append(b, byte('0'+r.Intn(10)))
@@ -177,64 +177,64 @@ func genDigits(r *Rng, b []byte) []byte {
 	return b
 }
 
-func genNumber(r *Rng) []byte {
+func c07GenNumber(r *Rng) []byte {
 	var b []byte
 	if r.Chance(1, 3) {
 		b = append(b, "+-"[r.Intn(2)])
 	}
 	switch r.Intn(3) {
 	case 0:
-		b = genDigits(r, b)
+		b = c07GenDigits(r, b)
 	case 1:
-		b = genDigits(r, b)
+		b = c07GenDigits(r, b)
 		b = append(b, '.')
-		b = genDigits(r, b)
+		b = c07GenDigits(r, b)
 	default:
 		b = append(b, '.')
-		b = genDigits(r, b)
+		b = c07GenDigits(r, b)
 	}
 	if r.Chance(1, 3) {
 		b = append(b, "eE"[r.Intn(2)])
 		if r.Bool() {
 			b = append(b, "+-"[r.Intn(2)])
 		}
-		b = genDigits(r, b)
+		b = c07GenDigits(r, b)
 	}
 	return b
 }
 
-func isDigitB(c byte) bool { return c >= '0' && c <= '9' }
+func c07IsDigitB(c byte) bool { return c >= '0' && c <= '9' }
 
 // a unit must not read as an exponent: e[+-]?digit
-func unitOK(u []byte) bool {
+func c07UnitOK(u []byte) bool {
 	if len(u) >= 2 && (u[0] == 'e' || u[0] == 'E') {
-		if isDigitB(u[1]) {
+		if c07IsDigitB(u[1]) {
 			return false
 		}
-		if len(u) >= 3 && (u[1] == '-' || u[1] == '+') && isDigitB(u[2]) {
+		if len(u) >= 3 && (u[1] == '-' || u[1] == '+') && c07IsDigitB(u[2]) {
 			return false
 		}
 	}
 	return true
 }
 
-func isURLName(name []byte) bool {
+func c07IsURLName(name []byte) bool {
 	s := bytes.ToLower(bytes.ReplaceAll(name, []byte{'\\'}, nil))
 	return string(s) == "url"
 }
 
-func genStringBody(r *Rng, q byte) []byte {
+func c07GenStringBody(r *Rng, q byte) []byte {
 	var b []byte
 	n := r.Intn(6)
 	for i := 0; i < n; i++ {
 		switch r.Intn(10) {
 		case 0:
-			b = append(b, genEscape(r, false)...)
+			b = append(b, c07GenEscape(r, false)...)
 		case 1:
 			b = append(b, '\\')
 			b = append(b, []string{"\n", "\r\n", "\f", "\r"}[r.Intn(4)]...)
 		case 2:
-			b = utf8.AppendRune(b, cssRunes[r.Intn(len(cssRunes))])
+			b = utf8.AppendRune(b, c07CssRunes[r.Intn(len(c07CssRunes))])
 		case 3:
 			if q == '"' {
 				b = append(b, '\'')
@@ -251,14 +251,14 @@ func genStringBody(r *Rng, q byte) []byte {
 	return b
 }
 
-func genString(r *Rng) []byte {
+func c07GenString(r *Rng) []byte {
 	q := "\"'"[r.Intn(2)]
 	b := []byte{q}
-	b = append(b, genStringBody(r, q)...)
+	b = append(b, c07GenStringBody(r, q)...)
 	return append(b, q)
 }
 
-func genURLWord(r *Rng) []byte {
+func c07GenURLWord(r *Rng) []byte {
 	w := []byte("url")
 	for i := range w {
 		if r.Bool() {
@@ -268,15 +268,15 @@ func genURLWord(r *Rng) []byte {
 	return w
 }
 
-func genUnquotedURL(r *Rng) []byte {
+func c07GenUnquotedURL(r *Rng) []byte {
 	var b []byte
 	n := 1 + r.Intn(6)
 	for i := 0; i < n; i++ {
 		switch r.Intn(8) {
 		case 0:
-			b = append(b, genEscape(r, false)...)
+			b = append(b, c07GenEscape(r, false)...)
 		case 1:
-			b = utf8.AppendRune(b, cssRunes[r.Intn(len(cssRunes))])
+			b = utf8.AppendRune(b, c07CssRunes[r.Intn(len(c07CssRunes))])
 		case 2:
 			pc := "/:.?&=#-_~%!*+,;@[]{}|<>$^`"
 			b = append(b, pc[r.Intn(len(pc))])
@@ -287,7 +287,7 @@ func genUnquotedURL(r *Rng) []byte {
 	return b
 }
 
-func genWS(r *Rng) []byte {
+func c07GenWS(r *Rng) []byte {
 	n := 1 + r.Intn(3)
 	var b []byte
 	for i := 0; i < n; i++ {
@@ -296,40 +296,40 @@ func genWS(r *Rng) []byte {
 	return b
 }
 
-func genURL(r *Rng) []byte {
-	b := genURLWord(r)
+func c07GenURL(r *Rng) []byte {
+	b := c07GenURLWord(r)
 	b = append(b, '(')
 	if r.Chance(1, 3) {
-		b = append(b, genWS(r)...)
+		b = append(b, c07GenWS(r)...)
 	}
 	switch r.Intn(3) {
 	case 0:
-		b = append(b, genString(r)...)
+		b = append(b, c07GenString(r)...)
 	case 1:
-		b = append(b, genUnquotedURL(r)...)
+		b = append(b, c07GenUnquotedURL(r)...)
 	default: // empty url
 	}
 	if r.Chance(1, 3) {
-		b = append(b, genWS(r)...)
+		b = append(b, c07GenWS(r)...)
 	}
 	return append(b, ')')
 }
 
 // malformed url( ... ) ending at the first unescaped ')'
-func genBadURL(r *Rng) []byte {
-	b := genURLWord(r)
+func c07GenBadURL(r *Rng) []byte {
+	b := c07GenURLWord(r)
 	b = append(b, '(')
 	switch r.Intn(5) {
 	case 0: // whitespace inside an unquoted url
-		b = append(b, genUnquotedURL(r)...)
+		b = append(b, c07GenUnquotedURL(r)...)
 		b = append(b, ' ')
-		b = append(b, genUnquotedURL(r)...)
+		b = append(b, c07GenUnquotedURL(r)...)
 	case 1: // quote / parenthesis / control character inside
-		b = append(b, genUnquotedURL(r)...)
+		b = append(b, c07GenUnquotedURL(r)...)
 		b = append(b, "\"'(\x01\x7f"[r.Intn(5)])
 		b = append(b, 'x')
 	case 2: // junk after a quoted url
-		b = append(b, genString(r)...)
+		b = append(b, c07GenString(r)...)
 		b = append(b, ' ', 'x')
 	case 3: // bad string inside
 		b = append(b, '"', 'a', '\n', 'b')
@@ -339,34 +339,34 @@ func genBadURL(r *Rng) []byte {
 	return append(b, ')')
 }
 
-func genHexN(r *Rng, b []byte, n int) []byte {
+func c07GenHexN(r *Rng, b []byte, n int) []byte {
 	for i := 0; i < n; i++ {
 		b = append(b, "0123456789abcdefABCDEF"[r.Intn(22)])
 	}
 	return b
 }
 
-func genUnicodeRange(r *Rng) []byte {
+func c07GenUnicodeRange(r *Rng) []byte {
 	b := []byte{"uU"[r.Intn(2)], '+'}
 	switch r.Intn(3) {
 	case 0:
-		b = genHexN(r, b, 1+r.Intn(6))
+		b = c07GenHexN(r, b, 1+r.Intn(6))
 	case 1:
 		k := r.Intn(6)
-		b = genHexN(r, b, k)
+		b = c07GenHexN(r, b, k)
 		q := 1 + r.Intn(6-k)
 		for i := 0; i < q; i++ {
 			b = append(b, '?')
 		}
 	default:
-		b = genHexN(r, b, 1+r.Intn(6))
+		b = c07GenHexN(r, b, 1+r.Intn(6))
 		b = append(b, '-')
-		b = genHexN(r, b, 1+r.Intn(6))
+		b = c07GenHexN(r, b, 1+r.Intn(6))
 	}
 	return b
 }
 
-func genComment(r *Rng) []byte {
+func c07GenComment(r *Rng) []byte {
 	b := []byte("/*")
 	n := r.Intn(5)
 	for i := 0; i < n; i++ {
@@ -377,7 +377,7 @@ func genComment(r *Rng) []byte {
 	return append(append([]byte("/*"), s...), '*', '/')
 }
 
-var cssFixedToks = []cssTok{
+var c07CssFixedToks = []c07CssTok{
 	{css.IncludeMatchToken, []byte("~=")}, {css.DashMatchToken, []byte("|=")}, {css.PrefixMatchToken, []byte("^=")},
 	{css.SuffixMatchToken, []byte("$=")}, {css.SubstringMatchToken, []byte("*=")}, {css.ColumnToken, []byte("||")},
 	{css.CDOToken, []byte("<!--")}, {css.CDCToken, []byte("-->")}, {css.ColonToken, []byte(":")},
@@ -386,71 +386,71 @@ var cssFixedToks = []cssTok{
 	{css.LeftBraceToken, []byte("{")}, {css.RightBraceToken, []byte("}")},
 }
 
-var cssDelims = []byte("!&=>~^$*.+</|#@%?-`")
+var c07CssDelims = []byte("!&=>~^$*.+</|#@%?-`")
 
-func genToken(r *Rng) cssTok {
+func c07GenToken(r *Rng) c07CssTok {
 	for {
 		switch r.Intn(20) {
 		case 0, 1:
-			return cssTok{css.IdentToken, genIdent(r)}
+			return c07CssTok{css.IdentToken, c07GenIdent(r)}
 		case 2:
-			return cssTok{css.CustomPropertyNameToken, genCustomProp(r)}
+			return c07CssTok{css.CustomPropertyNameToken, c07GenCustomProp(r)}
 		case 3:
-			n := genIdent(r)
-			if isURLName(n) {
+			n := c07GenIdent(r)
+			if c07IsURLName(n) {
 				continue
 			}
-			return cssTok{css.FunctionToken, append(n, '(')}
+			return c07CssTok{css.FunctionToken, append(n, '(')}
 		case 4:
-			return cssTok{css.AtKeywordToken, append([]byte{'@'}, genIdent(r)...)}
+			return c07CssTok{css.AtKeywordToken, append([]byte{'@'}, c07GenIdent(r)...)}
 		case 5:
-			return cssTok{css.HashToken, genIdentChars(r, []byte{'#'}, 1+r.Intn(4))}
+			return c07CssTok{css.HashToken, c07GenIdentChars(r, []byte{'#'}, 1+r.Intn(4))}
 		case 6:
-			return cssTok{css.StringToken, genString(r)}
+			return c07CssTok{css.StringToken, c07GenString(r)}
 		case 7:
-			return cssTok{css.URLToken, genURL(r)}
+			return c07CssTok{css.URLToken, c07GenURL(r)}
 		case 8:
-			return cssTok{css.NumberToken, genNumber(r)}
+			return c07CssTok{css.NumberToken, c07GenNumber(r)}
 		case 9:
-			return cssTok{css.PercentageToken, append(genNumber(r), '%')}
+			return c07CssTok{css.PercentageToken, append(c07GenNumber(r), '%')}
 		case 10:
-			u := genIdent(r)
+			u := c07GenIdent(r)
 			if r.Chance(1, 6) {
-				u = genCustomProp(r)
+				u = c07GenCustomProp(r)
 			}
-			if !unitOK(u) {
+			if !c07UnitOK(u) {
 				continue
 			}
-			return cssTok{css.DimensionToken, append(genNumber(r), u...)}
+			return c07CssTok{css.DimensionToken, append(c07GenNumber(r), u...)}
 		case 11:
-			return cssTok{css.UnicodeRangeToken, genUnicodeRange(r)}
+			return c07CssTok{css.UnicodeRangeToken, c07GenUnicodeRange(r)}
 		case 12, 13, 14:
-			return cssFixedToks[r.Intn(len(cssFixedToks))]
+			return c07CssFixedToks[r.Intn(len(c07CssFixedToks))]
 		case 15:
-			return cssTok{css.DelimToken, []byte{cssDelims[r.Intn(len(cssDelims))]}}
+			return c07CssTok{css.DelimToken, []byte{c07CssDelims[r.Intn(len(c07CssDelims))]}}
 		case 16:
-			return cssTok{css.CommentToken, genComment(r)}
+			return c07CssTok{css.CommentToken, c07GenComment(r)}
 		case 17:
-			return cssTok{css.BadURLToken, genBadURL(r)}
+			return c07CssTok{css.BadURLToken, c07GenBadURL(r)}
 		case 18:
 			q := "\"'"[r.Intn(2)]
-			b := append([]byte{q}, genStringBody(r, q)...)
+			b := append([]byte{q}, c07GenStringBody(r, q)...)
 			// a line continuation directly before the raw newline would swallow it
 			b = append(b, 'x')
-			return cssTok{css.BadStringToken, append(b, "\n\r\f"[r.Intn(3)])}
+			return c07CssTok{css.BadStringToken, append(b, "\n\r\f"[r.Intn(3)])}
 		default:
-			return cssTok{css.IdentToken, genIdent(r)}
+			return c07CssTok{css.IdentToken, c07GenIdent(r)}
 		}
 	}
 }
 
-func isIdentCharB(c byte) bool {
+func c07IsIdentCharB(c byte) bool {
 	return c >= 'a' && c <= 'z' || c >= 'A' && c <= 'Z' || c >= '0' && c <= '9' || c == '_' || c == '-' || c >= 0x80
 }
 
-// cssSafeAdjacent: may next follow prev without a separator (conservative version of the
+// c07CssSafeAdjacent: may next follow prev without a separator (conservative version of the
 // serialisation table of CSS Syntax, extended to this lexer's extra token kinds)?
-func cssSafeAdjacent(prev, next cssTok) bool {
+func c07CssSafeAdjacent(prev, next c07CssTok) bool {
 	n0 := next.text[0]
 	if next.tt == css.WhitespaceToken {
 		return prev.tt != css.WhitespaceToken
@@ -466,36 +466,36 @@ func cssSafeAdjacent(prev, next cssTok) bool {
 		// "\r" ending the bad string followed by "\n" is still two tokens; always safe
 		return true
 	case css.IdentToken, css.AtKeywordToken, css.HashToken, css.DimensionToken, css.CustomPropertyNameToken:
-		return !(isIdentCharB(n0) || n0 == '\\' || n0 == '(' || n0 == '+')
+		return !(c07IsIdentCharB(n0) || n0 == '\\' || n0 == '(' || n0 == '+')
 	case css.NumberToken:
-		return !(isIdentCharB(n0) || n0 == '\\' || n0 == '%' || n0 == '.')
+		return !(c07IsIdentCharB(n0) || n0 == '\\' || n0 == '%' || n0 == '.')
 	case css.UnicodeRangeToken:
-		return !(isIdentCharB(n0) || n0 == '?' || n0 == '\\')
+		return !(c07IsIdentCharB(n0) || n0 == '?' || n0 == '\\')
 	case css.DelimToken:
 		return next.tt == css.CommentToken
 	}
 	return false
 }
 
-// genTokenSeq returns the expected token sequence (separators included) and its text.
-func genTokenSeq(r *Rng, n int) ([]cssTok, []byte) {
-	var seq []cssTok
+// c07GenTokenSeq returns the expected token sequence (separators included) and its text.
+func c07GenTokenSeq(r *Rng, n int) ([]c07CssTok, []byte) {
+	var seq []c07CssTok
 	var text []byte
 	for i := 0; i < n; i++ {
-		t := genToken(r)
+		t := c07GenToken(r)
 		if len(seq) > 0 {
 			prev := seq[len(seq)-1]
-			if !(cssSafeAdjacent(prev, t) && r.Chance(2, 3)) {
-				var seps []cssTok
+			if !(c07CssSafeAdjacent(prev, t) && r.Chance(2, 3)) {
+				var seps []c07CssTok
 				switch r.Intn(6) {
 				case 0:
-					seps = []cssTok{{css.CommentToken, genComment(r)}}
+					seps = []c07CssTok{{css.CommentToken, c07GenComment(r)}}
 				case 1:
-					seps = []cssTok{{css.WhitespaceToken, genWS(r)}, {css.CommentToken, genComment(r)}}
+					seps = []c07CssTok{{css.WhitespaceToken, c07GenWS(r)}, {css.CommentToken, c07GenComment(r)}}
 				case 2:
-					seps = []cssTok{{css.CommentToken, genComment(r)}, {css.WhitespaceToken, genWS(r)}}
+					seps = []c07CssTok{{css.CommentToken, c07GenComment(r)}, {css.WhitespaceToken, c07GenWS(r)}}
 				default:
-					seps = []cssTok{{css.WhitespaceToken, genWS(r)}}
+					seps = []c07CssTok{{css.WhitespaceToken, c07GenWS(r)}}
 				}
 				for _, sp := range seps {
 					seq = append(seq, sp)
@@ -509,7 +509,7 @@ func genTokenSeq(r *Rng, n int) ([]cssTok, []byte) {
 	return seq, text
 }
 
-func mutateBytes(r *Rng, b []byte) []byte {
+func c07MutateBytes(r *Rng, b []byte) []byte {
 	b = append([]byte{}, b...)
 	k := 1 + r.Intn(3)
 	for i := 0; i < k; i++ {
@@ -534,7 +534,7 @@ func mutateBytes(r *Rng, b []byte) []byte {
 		case 4:
 			if len(b) > 0 {
 				j := r.Intn(len(b))
-				b[j] = cssAlphaFull[r.Intn(len(cssAlphaFull))]
+				b[j] = c07CssAlphaFull[r.Intn(len(c07CssAlphaFull))]
 			}
 		default:
 			if len(b) > 1 {
@@ -546,18 +546,18 @@ func mutateBytes(r *Rng, b []byte) []byte {
 	return b
 }
 
-func shrinkBytesCase(c Case) []Case {
+func c07ShrinkBytesCase(c Case) []Case {
 	dv, _ := takeList(c.Args)
 	d := toBytes(dv)
 	var out []Case
 	for i := range d {
 		nd := append(append([]byte{}, d[:i]...), d[i+1:]...)
-		out = append(out, cssCase(c.Fn, nd, ""))
+		out = append(out, c07CssCase(c.Fn, nd, ""))
 	}
 	return out
 }
 
-var cssLexModel = &Model{
+var c07CssLexModel = &Model{
 	Name: "csslex",
 	Gen: func(r *Rng, tier string, emit func(Case)) {
 		// exhaustive small scope
@@ -565,26 +565,26 @@ var cssLexModel = &Model{
 		if tier == "thorough" {
 			kFull, kCore = 4, 5
 		}
-		allStrings(cssAlphaFull, kFull, func(b []byte) { emit(cssCase("csslex", b, "")) })
-		allStrings(cssAlphaCore, kCore, func(b []byte) {
+		allStrings(c07CssAlphaFull, kFull, func(b []byte) { emit(c07CssCase("csslex", b, "")) })
+		allStrings(c07CssAlphaCore, kCore, func(b []byte) {
 			if len(b) > kFull {
-				emit(cssCase("csslex", b, ""))
+				emit(c07CssCase("csslex", b, ""))
 			}
 		})
 		// look-ahead triples after every first byte of the switch, followed by a tail
 		for _, tail := range []string{"", "a", "1", ")"} {
 			for _, s := range []string{"url(", "URL( ", "u+", "U+1-", "1e", "1e+", "1.", "-.", "+.", "--", "-\\", "#\\", "@-", "@\\", "<!-", "--", "\\\r", "\"\\", "url(\\", "url(a\\", "url('", "url( a ", "1e-", "\\1", "\\123456", "\\1234567"} {
-				for _, c := range cssAlphaFull {
-					emit(cssCase("csslex", append(append([]byte(s), c), tail...), ""))
+				for _, c := range c07CssAlphaFull {
+					emit(c07CssCase("csslex", append(append([]byte(s), c), tail...), ""))
 				}
 			}
 		}
 		// boundary cases of the counting loops and of the look-ahead
-		for _, s := range cssBoundary {
-			emit(cssCase("csslex", []byte(s), ""))
-			for _, c := range cssAlphaCore {
-				emit(cssCase("csslex", append([]byte(s), c), ""))
-				emit(cssCase("csslex", append([]byte(s), ' ', c), ""))
+		for _, s := range c07CssBoundary {
+			emit(c07CssCase("csslex", []byte(s), ""))
+			for _, c := range c07CssAlphaCore {
+				emit(c07CssCase("csslex", append([]byte(s), c), ""))
+				emit(c07CssCase("csslex", append([]byte(s), ' ', c), ""))
 			}
 		}
 		n := 12000
@@ -592,24 +592,24 @@ var cssLexModel = &Model{
 			n = 300000
 		}
 		for i := 0; i < n; i++ {
-			_, text := genTokenSeq(r, 1+i%6)
+			_, text := c07GenTokenSeq(r, 1+i%6)
 			switch i % 3 {
 			case 0:
-				emit(cssCase("csslex", text, fmt.Sprintf("structured %q", text)))
+				emit(c07CssCase("csslex", text, fmt.Sprintf("structured %q", text)))
 			case 1:
-				m := mutateBytes(r, text)
-				emit(cssCase("csslex", m, fmt.Sprintf("malformed %q", m)))
+				m := c07MutateBytes(r, text)
+				emit(c07CssCase("csslex", m, fmt.Sprintf("malformed %q", m)))
 			default:
 				// every truncation point is interesting: pick one
 				if len(text) > 0 {
 					text = text[:r.Intn(len(text)+1)]
 				}
-				emit(cssCase("csslex", text, fmt.Sprintf("truncated %q", text)))
+				emit(c07CssCase("csslex", text, fmt.Sprintf("truncated %q", text)))
 			}
 		}
 	},
-	Impl:   cssLexImpl,
-	Shrink: shrinkBytesCase,
+	Impl:   c07CssLexImpl,
+	Shrink: c07ShrinkBytesCase,
 	Class: func(c Case, out []int64) string {
 		if len(out) > 0 && out[len(out)-1] == -1 {
 			return "panic"
@@ -621,14 +621,14 @@ var cssLexModel = &Model{
 	},
 }
 
-var cssUtilModel = &Model{
+var c07CssUtilModel = &Model{
 	Name: "cssutil",
 	Gen: func(r *Rng, tier string, emit func(Case)) {
 		k := 3
 		if tier == "thorough" {
 			k = 4
 		}
-		allStrings(cssAlphaIdent, k, func(b []byte) { emit(cssCase("cssutil", b, "")) })
+		allStrings(c07CssAlphaIdent, k, func(b []byte) { emit(c07CssCase("cssutil", b, "")) })
 		n := 4000
 		if tier == "thorough" {
 			n = 200000
@@ -637,22 +637,22 @@ var cssUtilModel = &Model{
 			var b []byte
 			switch i % 4 {
 			case 0:
-				b = genIdent(r)
+				b = c07GenIdent(r)
 			case 1:
-				b = genUnquotedURL(r)
+				b = c07GenUnquotedURL(r)
 			case 2:
-				b = genCustomProp(r)
+				b = c07GenCustomProp(r)
 			default:
-				b = genToken(r).text
+				b = c07GenToken(r).text
 			}
 			if i%2 == 1 {
-				b = mutateBytes(r, b)
+				b = c07MutateBytes(r, b)
 			}
-			emit(cssCase("cssutil", b, ""))
+			emit(c07CssCase("cssutil", b, ""))
 		}
 	},
-	Impl:   cssUtilImpl,
-	Shrink: shrinkBytesCase,
+	Impl:   c07CssUtilImpl,
+	Shrink: c07ShrinkBytesCase,
 	Class: func(c Case, out []int64) string {
 		return fmt.Sprintf("ident=%d url=%d", out[0], out[1])
 	},
@@ -660,14 +660,14 @@ var cssUtilModel = &Model{
 
 // ---- C07 oracles (on the implementation only) ------------------------------------------------
 
-type lexedTok struct {
+type c07LexedTok struct {
 	tt   css.TokenType
 	data []byte
 	off  int
 }
 
-// lexAll drives the real lexer; ok=false if it did not reach ErrorToken within len+2 calls.
-func lexAll(b []byte) (toks []lexedTok, err error, ok bool, capBad bool) {
+// c07LexAll drives the real lexer; ok=false if it did not reach ErrorToken within len+2 calls.
+func c07LexAll(b []byte) (toks []c07LexedTok, err error, ok bool, capBad bool) {
 	in := parse.NewInputBytes(append(make([]byte, 0, len(b)+1), b...))
 	l := css.NewLexer(in)
 	for i := 0; i < len(b)+2; i++ {
@@ -678,17 +678,17 @@ func lexAll(b []byte) (toks []lexedTok, err error, ok bool, capBad bool) {
 		if cap(data) != len(data) {
 			capBad = true
 		}
-		toks = append(toks, lexedTok{tt, data, in.Offset()})
+		toks = append(toks, c07LexedTok{tt, data, in.Offset()})
 	}
 	return toks, nil, false, capBad
 }
 
-func cssCheckInput(rep *Report, b []byte, bucket string) {
+func c07CssCheckInput(rep *Report, b []byte, bucket string) {
 	key := hx(b)
-	var toks []lexedTok
+	var toks []c07LexedTok
 	var err error
 	var ok, capBad bool
-	if p := catch(func() { toks, err, ok, capBad = lexAll(b) }); p != nil {
+	if p := catch(func() { toks, err, ok, capBad = c07LexAll(b) }); p != nil {
 		rep.Violate("panic:"+key, fmt.Sprintf("css lexer panics on %q: %v", b, p), map[string]interface{}{"input": key})
 		return
 	}
@@ -720,8 +720,8 @@ func cssCheckInput(rep *Report, b []byte, bucket string) {
 	}
 	// re-lexing every token on its own
 	for _, t := range toks {
-		var again []lexedTok
-		if p := catch(func() { again, _, _, _ = lexAll(t.data) }); p != nil {
+		var again []c07LexedTok
+		if p := catch(func() { again, _, _, _ = c07LexAll(t.data) }); p != nil {
 			rep.Violate("relex-panic:"+hx(t.data), fmt.Sprintf("re-lexing %q panics", t.data), map[string]interface{}{"input": key, "token": hx(t.data)})
 			continue
 		}
@@ -732,7 +732,7 @@ func cssCheckInput(rep *Report, b []byte, bucket string) {
 	rep.Eval(key, len(toks) >= 1, bucket)
 }
 
-func cssCheckUtil(rep *Report, b []byte) {
+func c07CssCheckUtil(rep *Report, b []byte) {
 	key := hx(b)
 	var id, ur bool
 	if p := catch(func() { id = css.IsIdent(append([]byte{}, b...)); ur = css.IsURLUnquoted(append([]byte{}, b...)) }); p != nil {
@@ -740,7 +740,7 @@ func cssCheckUtil(rep *Report, b []byte) {
 		return
 	}
 	if len(b) > 0 {
-		toks, _, _, _ := lexAll(b)
+		toks, _, _, _ := c07LexAll(b)
 		one := len(toks) == 1 && (toks[0].tt == css.IdentToken || toks[0].tt == css.CustomPropertyNameToken) && bytes.Equal(toks[0].data, b)
 		if id != one {
 			rep.Violate("isident:"+key, fmt.Sprintf("IsIdent(%q)=%v but the lexer gives %v", b, id, toks), map[string]interface{}{"input": key})
@@ -748,7 +748,7 @@ func cssCheckUtil(rep *Report, b []byte) {
 	}
 	if ur {
 		u := append(append([]byte("url("), b...), ')')
-		toks, _, _, _ := lexAll(u)
+		toks, _, _, _ := c07LexAll(u)
 		if !(len(toks) == 1 && toks[0].tt == css.URLToken && bytes.Equal(toks[0].data, u)) {
 			rep.Violate("isurl:"+key, fmt.Sprintf("IsURLUnquoted(%q)=true but url(...) lexes to %v", b, toks), map[string]interface{}{"input": key})
 		}
@@ -770,18 +770,18 @@ func c07OracleSlices(r *Rng, tier string, rep *Report) {
 	if tier == "thorough" {
 		k = 4
 	}
-	allStrings(cssAlphaFull, k, func(b []byte) { cssCheckInput(rep, b, "exhaustive") })
+	allStrings(c07CssAlphaFull, k, func(b []byte) { c07CssCheckInput(rep, b, "exhaustive") })
 	n := 8000
 	if tier == "thorough" {
 		n = 400000
 	}
 	for i := 0; i < n; i++ {
-		_, text := genTokenSeq(r, 1+i%8)
+		_, text := c07GenTokenSeq(r, 1+i%8)
 		if i%2 == 1 {
-			text = mutateBytes(r, text)
-			cssCheckInput(rep, text, "malformed")
+			text = c07MutateBytes(r, text)
+			c07CssCheckInput(rep, text, "malformed")
 		} else {
-			cssCheckInput(rep, text, "structured")
+			c07CssCheckInput(rep, text, "structured")
 		}
 	}
 }
@@ -791,7 +791,7 @@ func c07OracleUtil(r *Rng, tier string, rep *Report) {
 	if tier == "thorough" {
 		k = 4
 	}
-	allStrings(cssAlphaIdent, k, func(b []byte) { cssCheckUtil(rep, b) })
+	allStrings(c07CssAlphaIdent, k, func(b []byte) { c07CssCheckUtil(rep, b) })
 	n := 8000
 	if tier == "thorough" {
 		n = 400000
@@ -800,18 +800,18 @@ func c07OracleUtil(r *Rng, tier string, rep *Report) {
 		var b []byte
 		switch i % 4 {
 		case 0:
-			b = genIdent(r)
+			b = c07GenIdent(r)
 		case 1:
-			b = genUnquotedURL(r)
+			b = c07GenUnquotedURL(r)
 		case 2:
-			b = genCustomProp(r)
+			b = c07GenCustomProp(r)
 		default:
-			b = genToken(r).text
+			b = c07GenToken(r).text
 		}
 		if i%3 == 2 {
-			b = mutateBytes(r, b)
+			b = c07MutateBytes(r, b)
 		}
-		cssCheckUtil(rep, b)
+		c07CssCheckUtil(rep, b)
 	}
 }
 
@@ -822,10 +822,10 @@ func c07OracleGrammar(r *Rng, tier string, rep *Report) {
 		n = 600000
 	}
 	for i := 0; i < n; i++ {
-		seq, text := genTokenSeq(r, 1+i%7)
+		seq, text := c07GenTokenSeq(r, 1+i%7)
 		key := hx(text)
-		var toks []lexedTok
-		if p := catch(func() { toks, _, _, _ = lexAll(text) }); p != nil {
+		var toks []c07LexedTok
+		if p := catch(func() { toks, _, _, _ = c07LexAll(text) }); p != nil {
 			rep.Violate("panic:"+key, fmt.Sprintf("css lexer panics on %q: %v", text, p), map[string]interface{}{"input": key})
 			continue
 		}
@@ -852,7 +852,7 @@ func c07OracleGrammar(r *Rng, tier string, rep *Report) {
 
 func init() {
 	props["C07"] = &PropSpec{
-		Models: []*Model{cssLexModel, cssUtilModel},
+		Models: []*Model{c07CssLexModel, c07CssUtilModel},
 		Oracles: []*Oracle{
 			{Name: "c07-tiling-relex", Run: c07OracleSlices},
 			{Name: "c07-isident-isurl", Run: c07OracleUtil},
